@@ -84,7 +84,34 @@ EMPHASIS = {
           'statement promises (dtype, shape, 0-d versus 1-d, int versus array, a NaN versus a missing entry, a list versus '
           'a dict) while the values stay right; (5) a FAILURE THAT IS SWALLOWED: a try/except or an early return that '
           'silently turns an error or an unusual input into an absent or default result.'),
+    '8': ('This time the main rule is LOCATION: the earlier proposals edited the functions listed below (taken from their '
+          'patches). Put BOTH of your changes into code that is NOT in that list - another function, method, property, '
+          'module-level helper or constant of the same package that the stated behaviour relies on (follow the calls: '
+          'readers, writers, small array helpers, path helpers, constructors, `__init__`/`close`/`describe` methods, '
+          'class attributes, module constants). If really every relevant function is taken, edit a statement far away '
+          'from the earlier edit in the largest of them. Any mechanism is fine as long as the change needs something '
+          'specific to manifest.'),
 }
+
+
+def touched_functions(pid):
+    """Function / class names that appear in the hunk headers of the earlier patches of a property."""
+    names = {}
+    sd = os.path.join(VERIF, 'seeded')
+    for name in sorted(os.listdir(sd)):
+        if not name.startswith(pid + '-'):
+            continue
+        cur = None
+        for line in open(os.path.join(sd, name, 'patch.diff'), errors='replace'):
+            if line.startswith('+++ b/'):
+                cur = line[6:].strip()
+            m = re.match(r'^@@ .* @@\s*(?:async\s+)?(def|class)\s+(\w+)', line)
+            if m and cur:
+                names.setdefault(cur, set()).add(m.group(2))
+            m = re.match(r'^[-+ ]\s*(def)\s+(\w+)', line)
+            if m and cur:
+                names.setdefault(cur, set()).add(m.group(2))
+    return names
 
 
 def main():
@@ -120,8 +147,12 @@ def main():
                 notes = ' '.join(lines)[:260]
             what = re.sub(r'^#\s*', '', m.get('what', ''))
             earlier.append('- %s: %s  %s' % (', '.join(m.get('files_changed', [])), what, notes))
-        prompt = TEMPLATE.format(wt=wt, out=out, prop=text, earlier='\n'.join(earlier),
-                                 emphasis=EMPHASIS.get(rnd, EMPHASIS['default']))
+        emphasis = EMPHASIS.get(rnd, EMPHASIS['default'])
+        if rnd == '8':
+            tf = touched_functions(pid)
+            emphasis += ' Already edited: ' + '; '.join(
+                '%s: %s' % (f, ', '.join(sorted(v))) for f, v in sorted(tf.items())) + '.'
+        prompt = TEMPLATE.format(wt=wt, out=out, prop=text, earlier='\n'.join(earlier), emphasis=emphasis)
         open(os.path.join(out, 'PROMPT.txt'), 'w').write(prompt)
         print(pid, 'earlier proposals:', len(earlier))
 
